@@ -166,7 +166,10 @@ func buildConfig(c *Chooser) (cfg ymap, mustReject []string) {
 		if c.Pick(2, "cgf.hostIPv4") == 1 {
 			delete(g, "hostIPv4")
 		}
-		if c.Pick(2, "cgf.enable") == 1 {
+		if e := c.Pick(3, "cgf.enable"); e >= 1 {
+			if e == 2 {
+				delete(g, "tls") // enabled, and no certificate of its own
+			}
 			// the CDR transfer (FTP) server is started as well; a listening port of this process's own
 			g["enable"] = true
 			g["listenPort"] = 22000 + os.Getpid()%5000
